@@ -416,7 +416,8 @@ pub fn miri_stage(seed: u64, n: u32, procs: usize, out: &mut crate::runner::Extr
             out.violations.push((Fail::new("c17:miri:oracle", l.to_string()), case_json));
         } else if se.contains("Undefined Behavior") || se.contains("error: memory leaked") || se.contains("error: unsupported operation") && !se.contains("can't call foreign function") {
             let line = se.lines().find(|l| l.starts_with("error")).unwrap_or("error");
-            let at = se.lines().find(|l| l.trim_start().starts_with("-->")).unwrap_or("");
+            // the location that follows the error line (earlier `-->` lines belong to compiler warnings)
+            let at = se.lines().skip_while(|l| !l.starts_with("error")).find(|l| l.trim_start().starts_with("-->")).unwrap_or("");
             out.violations.push((
                 Fail::new("c17:miri:ub", format!("Miri: {line} {at} (case #{:?}; re-run: cd /verif/harness && MIRIFLAGS=-Zmiri-disable-isolation cargo +nightly miri run --target-dir /verif/target/miri --bin vmiri -- {} 0 1)", last_case, file.display())),
                 case_json,
